@@ -36,6 +36,17 @@ theorem page_reads_back (W : World) (hW : WorldOK W) (fuel : Nat) (file : Str) (
   have hwf := evaluated_page_is_wellformed W hW fuel file dom stack hdom out st' h
   exact ⟨render_tokens_evaluated out hwf, skeleton_of_evaluated out hwf⟩
 
+/-- the same for a LAYOUT of a page that handed it named slots (`extractSlotsFromDOM` of the page's DOM): also the content a page supplies
+    to its layout — evaluated through a component of the layout, or placed as parsed by a `<slot>` of the layout itself — cannot carry a data
+    value anywhere but into text and attribute values -/
+theorem layout_reads_back (W : World) (hW : WorldOK W) (fuel : Nat) (file : Str) (dom pageDom : List Node) (stack : Stack)
+    (hdom : TplList dom) (hpage : TplList pageDom) (out : List Node) (st' : St)
+    (h : evaluateLayout W fuel file dom stack (extractPageSlots pageDom) = .ok (out, st')) :
+    tokenize (render out) = toksEList 0 out ∧ skel (tokenize (render out)) = shapeEList out := by
+  unfold evaluateLayout at h
+  have hwf := (wfAt_all W hW fuel).list _ _ _ ⟨(fun sc hsc => by cases hsc), scopeOK_extractPageSlots hpage⟩ (tpl_resolveTagsList _ _ hdom) out st' h
+  exact ⟨render_tokens_evaluated out hwf, skeleton_of_evaluated out hwf⟩
+
 /-- the ids `assignSeenAttrs` stamps on v-once elements (what `Vue.Render` does to a page before evaluating it) keep a template a template -/
 theorem assignSeenAttrs_keeps_template (file : Str) (dom : List Node) (h : TplList dom) : TplList (assignSeenAttrs file dom) :=
   tpl_assignIdsList file 0 dom h
